@@ -52,6 +52,7 @@ type phEvent struct {
 	Orf     []int      `json:"orf"`
 	R1      []phResult `json:"r1"`
 	R2      []phResult `json:"r2"`
+	Reused  bool       `json:"reused"`
 }
 
 func mkBag(seqs [][]int) align.SeqBag {
@@ -71,6 +72,10 @@ func bagRows(sb align.SeqBag) [][]int {
 }
 
 var phaseTimeout = 30 * time.Second
+
+// the phaser of the previous call and whether the next call uses it again (set by the workload, one call at a time)
+var sharedPhaser align.Phaser
+var reusePhaser bool
 
 func phaseCall(seqs, refs [][]int, o phOpts, cpus int) phEvent {
 	blank := func() phEvent {
@@ -97,7 +102,15 @@ func phaseCall(seqs, refs [][]int, o phOpts, cpus int) phEvent {
 				rb.AddSequenceChar(fmt.Sprintf("ref%d", i+1), i2b(r), "")
 			}
 		}
-		ph := align.NewPhaser()
+		// every other call is made on the phaser object of an earlier call (options set again, as a caller phasing several
+		// files does): nothing of an earlier call - a failure, a closed stream, a cached reference - may reach this one
+		ph := sharedPhaser
+		if !reusePhaser || ph == nil {
+			ph = align.NewPhaser()
+		} else {
+			ev.Reused = true
+		}
+		sharedPhaser = ph
 		ph.SetTranslate(o.Translate, o.Code)
 		ph.SetReverse(o.Reverse)
 		ph.SetCutEnd(o.Cutend)
@@ -141,6 +154,7 @@ func phaseCall(seqs, refs [][]int, o phOpts, cpus int) phEvent {
 		// the goroutine above stays blocked on the stream: nothing of what it holds is touched here
 		ev := blank()
 		ev.Kind, ev.Msg = "hang", fmt.Sprintf("the result stream was not closed within %v", phaseTimeout)
+		sharedPhaser = nil // (still in use by the blocked call)
 		return ev
 	}
 }
@@ -362,10 +376,17 @@ func phaseFamily(env *Env) error {
 			refs = append(refs, randORF(rng, 5)) // a second, unrelated reference
 		}
 		cpus := []int{1, 2, 3, 8, 16, 32}[rng.Intn(6)]
+		if i%6 == 4 {
+			// a read too short to be aligned: an alignment error is reported for it (the call is then not held to "one
+			// result per read"), and the calls that follow on the same phaser object must not notice
+			seqs = append(seqs, b2i([]byte("AC")))
+		}
+		reusePhaser = i%2 == 1 || i%6 == 5
 		ev := phaseCall(seqs, refs, o, cpus)
 		ev.ID = id
 		env.Emit(ev)
-		if cliSampled(i) && !o.Translate {
+		// (the command stops at the first read reporting an error: with the unalignable read it is not asked)
+		if cliSampled(i) && !o.Translate && i%6 != 4 {
 			// the same reads through `goalign phasent`; without a given reference, the one it announces is judged as an
 			// answer to "the longest ORF of the reads"
 			if ce, corf, ok := phasentCli(filepath.Dir(env.Out), seqs, refs, o, cpus); ok {
